@@ -58,17 +58,28 @@ def run(ctx):
     limit_docs = sorted(set(pick(lambda x: x["doc"]["body"] and "".join(x["doc"]["body"]), 2) + pick(lambda x: not x["doc"]["body"], 2)))
     plan = {"edit_docs": edit_docs, "limit_docs": limit_docs, "alphabet": ALPHABET, "max_str_len": ctx.pick(2, 4),
             "watchdog_ms": 20000}
+    # the Encoder as a state machine (AssertEncoder.tla): TLC checks WellSeparated / SepAlwaysDue and exports the kind sequences
+    epath = os.path.join(d, "encoder.json")
+    ecfg = ctx.pick("AssertEncoder_mc.cfg", "AssertEncoder_mc_thorough.cfg")
+    emc = tlc.run(ctx, "AssertEncoderTable", ecfg, workers=2, env={"VERIF_OUT": epath}, timeout=600, name="tlc_AssertEncoder")
+    if not emc.ok:
+        raise InfraError("spec-level counterexample in AssertEncoder: %s\n%s" % (emc.summary(), common.tail(emc.out, 30)))
+    with open(epath) as f:
+        enc_table = json.load(f)
     ppath, outp = os.path.join(d, "plan.json"), os.path.join(d, "out.ndjson")
     with open(ppath, "w") as f:
         json.dump(plan, f)
     tb = goharness.overlay_test_build(ctx, "asserts", OVERLAY)
     rc, o = goharness.run_test_bin(ctx, tb, "^TestVerifAssertCodec$", cwd=os.path.join(common.REPO, "asserts"),
-                                   env={"VERIF_IN": tpath, "VERIF_PLAN": ppath, "VERIF_OUT": outp}, timeout=ctx.pick(900, 3000))
+                                   env={"VERIF_IN": tpath, "VERIF_PLAN": ppath, "VERIF_OUT": outp, "VERIF_ENC": epath}, timeout=ctx.pick(900, 3000))
     goharness.check_driver(rc, o, "assertcodec driver")
     if not re.search(r'VERIF-STATS docs=%d ' % len(docs), o):
         raise InfraError("assertcodec driver did not finish:\n%s" % common.tail(o, 20))
     recs = common.read_ndjson(outp)
     ev = evaluate(ctx, docs, recs)
+    n_enc = sum(1 for r in recs if r["kind"] == "encstream")
+    if n_enc != len(enc_table):
+        raise InfraError("driver ran %d of %d encoder streams" % (n_enc, len(enc_table)))
 
     # I->T for the limits: TLC evaluates LimitExpect of the spec on the observed sizes
     limits = [r for r in recs if r["kind"] == "limit"]
@@ -84,7 +95,8 @@ def run(ctx):
     neg = negative_control(ctx, docs, recs)
     # guards are enforced unless there is a violation that is not a listed known finding (which exits 1 anyway)
     if not findings.classify(ctx.prop, ev["violations"])[1]:
-        for k in ("doc_ok", "stream_ok", "edit_rejected", "edit_accepted_either", "limit_rejected_required", "limit_accepted", "window_ok"):
+        for k in ("doc_ok", "stream_ok", "edit_rejected", "edit_accepted_either", "limit_rejected_required", "limit_accepted", "window_ok", "encstream_ok",
+                  "encstream_with_nonl_element_before_another"):
             if ev["stats"].get(k, 0) == 0:
                 raise InfraError("vacuity guard: %s = 0" % k)
         if not neg:
@@ -110,10 +122,12 @@ def run(ctx):
                 "Decode(Encode(a)) and stream Decoder (streams of 1-3, default and 16-byte buffer) return identical headers, "
                 "body, revision, signature; every edit class with Expect=reject is rejected by Decode and both stream decoders; "
                 "no panic/timeout; accepted inputs satisfy Encode(Decode(b))=b and re-decode to equal fields; "
-                "header-block and signature lengths swept across the decoder's peek-window boundaries (4096/8192/16384 +-3 with the "
+                "every sequence of 1-4 elements x {Encode, WriteEncoded[, WriteContentSignature]} x {with, without final newline} written "
+                "through ONE Encoder (AssertEncoder.tla: WellSeparated) equals the reference stream text and decodes back to the same "
+                "sequence then EOF; header-block and signature lengths swept across the decoder's peek-window boundaries (4096/8192/16384 +-3 with the "
                 "default buffer, every length 1..300 and 512/1024 +-3 with a 16-byte buffer) in two-assertion streams: stream decode = "
                 "one-shot Decode; sizes above NewDecoderStressed limits are rejected (LimitExpect evaluated by TLC on the observations)",
-        "tlc_config": cfg, "generated_values": table["counts"]["values"], "generated_documents": len(docs),
+        "tlc_config": cfg, "encoder_tlc_config": ecfg, "encoder_states": emc.distinct, "encoder_streams": len(enc_table), "generated_values": table["counts"]["values"], "generated_documents": len(docs),
         "documents_without_empty_collections": len(rt), "edit_classes": len(table["edits"]),
         "edit_documents": [doc_show(docs[i]) for i in edit_docs][:12],
         "stats": ev["stats"], "edit_outcomes": ev["edit_outcomes"],
@@ -187,6 +201,20 @@ def evaluate(ctx, docs, recs):
                     desc="edit %s/%s expected %s but %s gave %s (%s)" % (r["class"], b["variant"], r["expect"], b["decoder"],
                                                                     b["res"], (b.get("msg") or "")[:200]),
                     replay={"document": docs[r["doc"]], "edit": r["class"], "bad": b}))
+        elif r["kind"] == "encstream":
+            inc("encstream_total")
+            if any(not k.endswith("-nl") for k in r["kinds"][:-1]):
+                inc("encstream_with_nonl_element_before_another")
+            if r["res"] == "ok":
+                inc("encstream_ok")
+            elif r["res"] == "harness-error":
+                raise InfraError("encoder stream harness error: %s" % r)
+            else:
+                violations.append(Violation(
+                    key="one Encoder, elements [%s]: %s" % (",".join(r["kinds"]), r["res"]),
+                    desc="stream written through ONE Encoder from elements [%s] (nl/nonl = with/without final newline) does not decode "
+                         "back to the same sequence: %s (%s)" % (",".join(r["kinds"]), r["res"], (r.get("msg") or "")[:200]),
+                    replay=r))
         elif r["kind"] == "window":
             inc("window_total")
             if r["res"] == "ok":
